@@ -8,19 +8,47 @@
 //! one no writer has a reason to refuse (every method fits 65535 bytes even in the longest encoding);
 //! a panic is a violation.
 //!
+//! Clause table (statement + quantifier → where decided, over which space):
+//!
+//! | clause | decided in | space |
+//! |---|---|---|
+//! | every class description the reader can produce | `judge`: `read_class` builds the tree, nothing hand-made | (a) shared suite, shape sweep, corpus; (b) windows; (c) collision spaces |
+//! | … and every such description after renaming | `judge_renamed`: real `dukebox::remap::remap_class` with two total remappers (c02/renamed.rs), then `judge_tree` against `project(renamed tree)` | every case of the suite, shape sweep len ≤ 2, corpus, operand/collision spaces, every 8th (thorough: 2nd) window scene × 2 remappers |
+//! | writing succeeds or fails cleanly | `judge_tree`: `vcore::guard` (panic = violation), `vcore::watched` (hang = violation); `Err` only where `must_be_writable` is false (renamed: or the reference assembler cannot encode the description either) | all |
+//! | output structurally valid: indices in range and of the right kind, lengths exact, code within limits | `cfmodel::parse` (strict) on every output | all; boundary: `code-length-limit`, `full-constant-pool`, `operand-thresholds`, `invokeinterface-descriptors` (count byte), `dynamic-constant-descriptors` (ldc vs ldc2_w) |
+//! | an independent parser reads back exactly the same facts | `oracle::normalise` + `cfmodel::sdiff::diff(project(T), parse(out))` | all; tables that collide: `bootstrap-table`, `pool-collisions` |
+//! | every branch / switch arm / exception range / table entry designates the same instruction after rewriting | same diff, on scenes with `decor` ≥ 1 (exceptions, line numbers, local variables, type annotations anchored on the jumps, their neighbours and the end of the code) | windows, `end-of-code-tables` |
+//! | every length field exact: counts at their limit | `split-tables` (one list of 65534 / 65535 entries from several attributes must come out whole; 65536 / 65538 must be refused cleanly, never truncated), `full-constant-pool` (65531..65535 slots; renamed trees needing 1-2 entries more: written up to 65535, refused beyond) | |
+//! | (domain edge) descriptions only a lenient reader produces | `invokeinterface-unrepresentable` (clean error demanded: the count byte cannot be stated), `unrepresentable-code` (equal/descending lookupswitch keys, zero dimensions: no panic; an output that is invalid exactly as the input was is not charged) | |
+//! | all method sizes up to 65535 | `code-length-limit` (65528..65541, with and without tables ending at the end of the code) | |
+//! | forward/backward jumps straddling ±32767 | `single-far-jump` (18 opcodes × direction × window) | |
+//! | chains where widening one jump pushes another over the limit | `cascade-of-two`, `cascade-of-three`, `chain-of-k` (k+1 layouts, k ≤ 33 / 96), `fan-of-k` (k ≤ 260 / 1000), `mixed-chain` (forward and backward alternately, m ≤ 13 / 32) | |
+//! | switches at every alignment | `switch-alignment` kinds 0-4 (4 = backward jump over a switch whose padding differs) | |
+//! | pools crossing the ldc 255 boundary, locals crossing 255 | `operand-thresholds`, `dynamic-constant-descriptors` | |
+//!
 //! Enumerated spaces (each complete within its stated bounds, no sampling):
 //! (a) the shared class suite of C01 (instruction samples × forms × pools, 3^8 form product, switch
 //!     paddings, pool permutations/rotations/padding, attribute orders and contents, versions, Utf8
 //!     boundary strings), the shape sweep (all instruction sequences up to length L with every branch
 //!     target) and the vendored javac corpus (thorough: also java.base);
 //! (b) threshold windows (c02/windows.rs): one far jump for each of the 18 jump opcodes × direction ×
-//!     every distance in a window around ±32767/32768; two (thorough: three) jumps in crossing, nested,
-//!     disjoint arrangements where rewriting one pushes another over the limit; switches at every
+//!     every distance in a window around ±32767/32768; two and three jumps in crossing, nested,
+//!     disjoint arrangements where rewriting one pushes another over the limit; chains of k jumps in which
+//!     every rewriting pushes exactly one more jump over the limit, fans of k jumps that are all too far at
+//!     once, mixed chains of forward and backward jumps; switches at every
 //!     alignment with far arms before/after a rewritten jump and with input/output padding that differs;
 //!     code length landing on 65528..65541; a backward conditional jump whose opcode sits at 65515..65535;
 //!     `ldc` around pool index 255, locals around 3/4 and 255/256, `iinc` around ±127/128, `ret`,
 //!     `invokeinterface` counts up to 255 (and the unrepresentable 256/257), MethodParameters up to 255,
-//!     constant pools filled to 65533..65535 slots.
+//!     constant pools filled to 65531..65535 slots;
+//! (c) collision spaces (c02/spaces.rs): invokeinterface on every parameter list of length ≤ 3 (5) over 12
+//!     parameter types × 4 return types; dynamic constants of 19 descriptor shapes; a bootstrap-method table
+//!     of 3 handles × 6 argument lists in every rotation; one class holding every text and bit pattern in
+//!     every constant kind; methods ending in a multi-byte instruction with tables that end at the end of the code;
+//!     line-number tables of 65534..65538 entries spread over 2-3 attributes; lookupswitch/multianewarray operands
+//!     no class file may state;
+//! (d) renamed trees (c02/renamed.rs): the cases named in the clause table, each renamed by the real
+//!     `dukebox::remap::remap_class` with two remappers and written.
 //!
 //! Level `model_checking`: states = distinct (method body, set of sites the writer emitted in the long
 //! form) reached; transitions = executions of the real `duke::write_class`, each validated.
@@ -37,6 +65,10 @@ use vcore::{json, Ctx, Distinct, Stats, Tier};
 mod oracle;
 #[path = "c02/windows.rs"]
 mod windows;
+#[path = "c02/spaces.rs"]
+mod spaces;
+#[path = "c02/renamed.rs"]
+mod renamed;
 
 use windows::Intent;
 
@@ -56,6 +88,11 @@ struct Acc {
 	max_wide_bwd: i64,
 	min_tramp_fwd: i64,
 	max_tramp_bwd: i64,
+	/// most long-form sites in one method; the same over scenes in which some jump was pushed over the limit by another
+	max_sites: u64,
+	max_cascade_sites: u64,
+	/// cases whose tree is also written after renaming: (label, class file bytes)
+	queue: Vec<(String, Vec<u8>)>,
 }
 
 impl Acc {
@@ -85,6 +122,9 @@ impl Acc {
 		self.max_wide_bwd = self.max_wide_bwd.max(o.max_wide_bwd);
 		self.min_tramp_fwd = self.min_tramp_fwd.min(o.min_tramp_fwd);
 		self.max_tramp_bwd = self.max_tramp_bwd.max(o.max_tramp_bwd);
+		self.max_sites = self.max_sites.max(o.max_sites);
+		self.max_cascade_sites = self.max_cascade_sites.max(o.max_cascade_sites);
+		self.queue.extend(o.queue);
 		self
 	}
 }
@@ -114,8 +154,8 @@ fn message_class(msg: &str) -> String {
 }
 
 /// One case: the bytes of a class file. Read it with the real reader, write the tree with the real
-/// writer, judge the result.
-fn judge(ctx: &Ctx, acc: &mut Acc, label: &str, bytes: &[u8], intent: Intent, parsed_input: Option<cfmodel::Parsed>) {
+/// writer, judge the result. `rename`: the case is queued for the renamed-trees pass as well.
+fn judge(ctx: &Ctx, acc: &mut Acc, label: &str, bytes: &[u8], intent: Intent, parsed_input: Option<cfmodel::Parsed>, rename: bool) {
 	let reference = match parsed_input {
 		Some(p) => Ok(p),
 		None => timed(3, || cfmodel::parse(bytes)),
@@ -137,10 +177,63 @@ fn judge(ctx: &Ctx, acc: &mut Acc, label: &str, bytes: &[u8], intent: Intent, pa
 		},
 		Ok(Ok(t)) => t,
 	};
-	let expected = match timed(5, || cfmodel::duke_proj::project(&tree)) {
+	if rename {
+		acc.queue.push((label.to_owned(), bytes.to_vec()));
+	}
+	let input_rejection = reference.as_ref().err().map(|e| message_class(&e.msg));
+	judge_tree(ctx, acc, label, bytes, &tree, reference.as_ref().ok(), intent, None, input_rejection);
+}
+
+/// The renamed-trees pass: the tree the reader built, renamed by the real `dukebox::remap::remap_class`, is what
+/// the writer is given. A renaming that fails or panics is C07's business.
+fn judge_renamed(ctx: &Ctx, acc: &mut Acc, label: &str, bytes: &[u8], mode: renamed::Mode) {
+	let Ok(Ok(tree)) = vcore::guard(|| duke::read_class(&mut std::io::Cursor::new(bytes))) else {
+		acc.st.outcome("not-written:reader-refused (C01)");
+		return;
+	};
+	let tree = match vcore::guard(|| dukebox::remap::remap_class(&renamed::Renamer(mode), tree)) {
+		Err(_) => {
+			acc.st.outcome("not-written:renaming-panicked (C07)");
+			return;
+		},
+		Ok(Err(_)) => {
+			acc.st.outcome("not-written:renaming-refused (C07)");
+			return;
+		},
+		Ok(Ok(t)) => t,
+	};
+	acc.ob("tree renamed by dukebox and given to the writer");
+	if label.starts_with("ldc/") {
+		// information for a floor: does the renamed tree take other ldc / ldc_w decisions than the tree it was made from?
+		let forms = |t: &duke::tree::class::ClassFile| -> Option<(u32, u32)> {
+			let mut out: Vec<u8> = Vec::new();
+			vcore::guard(|| duke::write_class(&mut out, t)).ok()?.ok()?;
+			let p = cfmodel::parse(&out).ok()?;
+			let s = oracle::scan(&p, &out);
+			Some((s.iter().map(|c| c.ldc).sum(), s.iter().map(|c| c.ldc_w).sum()))
+		};
+		if let Ok(Ok(original)) = vcore::guard(|| duke::read_class(&mut std::io::Cursor::new(bytes))) {
+			if let (Some(a), Some(b)) = (forms(&original), forms(&tree)) {
+				if a != b {
+					acc.ob("renaming moved a constant across the ldc/ldc_w boundary");
+				}
+			}
+		}
+	}
+	let reference = cfmodel::parse(bytes).ok();
+	let label = format!("{label} renamed={}", mode.name());
+	let lenient = Intent { strict: false, ..STRICT };
+	judge_tree(ctx, acc, &label, bytes, &tree, reference.as_ref(), lenient, Some(mode), None);
+}
+
+/// Writes `tree` with the real writer and judges the result against `project(tree)`. `reference` = the parse of the
+/// class file the tree (or, for a renamed tree, its original) was read from.
+#[allow(clippy::too_many_arguments)]
+fn judge_tree(ctx: &Ctx, acc: &mut Acc, label: &str, bytes: &[u8], tree: &duke::tree::class::ClassFile, reference: Option<&cfmodel::Parsed>, intent: Intent, renamed: Option<renamed::Mode>, input_rejection: Option<String>) {
+	let expected = match timed(5, || cfmodel::duke_proj::project(tree)) {
 		Ok(p) => p,
 		Err(_) => {
-			acc.st.outcome("not-written:inconsistent-tree (C01)");
+			acc.st.outcome(if renamed.is_some() { "not-written:inconsistent-renamed-tree (C07)" } else { "not-written:inconsistent-tree (C01)" });
 			return;
 		},
 	};
@@ -149,9 +242,12 @@ fn judge(ctx: &Ctx, acc: &mut Acc, label: &str, bytes: &[u8], intent: Intent, pa
 	acc.transitions += 1;
 	let written = timed(6, || vcore::guard(|| {
 		let mut out: Vec<u8> = Vec::new();
-		duke::write_class(&mut out, &tree).map(|()| out)
+		duke::write_class(&mut out, tree).map(|()| out)
 	}));
-	let group = label.split('/').next().unwrap_or(label);
+	let group = match renamed {
+		Some(m) => format!("renamed-{}", m.name()),
+		None => label.split('/').next().unwrap_or(label).to_owned(),
+	};
 	let out = match written {
 		Err(p) => {
 			acc.st.outcome("panic");
@@ -163,14 +259,23 @@ fn judge(ctx: &Ctx, acc: &mut Acc, label: &str, bytes: &[u8], intent: Intent, pa
 			acc.validated += 1;
 			let msg = format!("{e:#}");
 			let msg = &msg[..msg.char_indices().take_while(|(i, _)| *i < 300).last().map(|(i, c)| i + c.len_utf8()).unwrap_or(0)];
-			let pool = reference.as_ref().map(|p| p.pool_count).unwrap_or(u16::MAX);
-			if reference.is_ok() && oracle::must_be_writable(&expected, pool) {
+			let pool = reference.map(|p| p.pool_count).unwrap_or(u16::MAX);
+			// a renamed description may have become unrepresentable (a name longer than 65535 bytes): the independent
+			// assembler decides that, not the message of the code under test
+			let representable = renamed.is_none() || assemble(&expected, &Encoding::default()).is_ok();
+			if reference.is_some() && representable && !intent.table_overflow && oracle::must_be_writable(&expected, pool) {
 				acc.st.outcome("refused-writable-class");
 				ctx.diff("writer:refused-writable-class", &format!("write_class fails on a class every method of which fits 65535 bytes in any encoding: {msg}"), || replay_text(label, bytes));
 			} else {
 				acc.st.outcome("clean-error");
+				if renamed.is_some() && pool >= 65_500 {
+					acc.ob("renamed tree refused cleanly: it needs more constant pool entries than the full pool it was read from");
+				}
 				if intent.overflow {
 					acc.ob("clean error where the settled layout exceeds 65535 bytes");
+				}
+				if intent.table_overflow {
+					acc.ob("clean error where a table has more than 65535 entries");
 				}
 				acc.st.sample("clean-error", || json!({"label": label, "outcome": "clean error", "message": msg}));
 			}
@@ -181,6 +286,10 @@ fn judge(ctx: &Ctx, acc: &mut Acc, label: &str, bytes: &[u8], intent: Intent, pa
 	acc.validated += 1;
 	let parsed = match timed(7, || cfmodel::parse(&out)) {
 		Ok(p) => p,
+		Err(e) if intent.invalid_code && input_rejection.as_deref() == Some(message_class(&e.msg).as_str()) => {
+			acc.st.outcome("written:invalid-as-given (the input breaks the same code constraint)");
+			return;
+		},
 		Err(e) => {
 			acc.st.outcome("ill-formed-output");
 			ctx.diff(&format!("output:ill-formed:{}", message_class(&e.msg)), &format!("the written file is not a well-formed class file: {e}"), || replay_text(label, bytes));
@@ -190,10 +299,13 @@ fn judge(ctx: &Ctx, acc: &mut Acc, label: &str, bytes: &[u8], intent: Intent, pa
 	let (actual, info) = timed(8, || oracle::normalise(&expected, &parsed.class));
 	let diffs = timed(8, || cfmodel::sdiff::diff(&expected, &actual));
 	acc.st.outcome(if diffs.is_empty() { "written:equal" } else { "written:differs" });
+	if renamed.is_some() {
+		acc.ob(if diffs.is_empty() { "renamed tree written and read back equal" } else { "renamed tree written and read back different" });
+	}
 	for (key, detail) in diffs.0 {
 		ctx.diff(&key, &detail, || replay_text(label, bytes));
 	}
-	if let Ok(r) = &reference {
+	if let (Some(r), None) = (reference, renamed) {
 		acc.ob(if r.class == parsed.class { "composite parse(b') == parse(b) (information)" } else { "composite parse(b') != parse(b) (information)" });
 	}
 
@@ -230,17 +342,35 @@ fn judge(ctx: &Ctx, acc: &mut Acc, label: &str, bytes: &[u8], intent: Intent, pa
 				}
 			}
 		}
+		let (mut fwd_tramp, mut bwd_tramp) = (false, false);
 		for f in folds {
 			wide_set.push(*f);
 			match ec.insns.get(*f as usize) {
-				Some(SInsn::Branch(_, t)) if *t > *f => acc.ob("forward conditional jump written as a trampoline"),
-				Some(SInsn::Branch(..)) => acc.ob("backward conditional jump written as a trampoline"),
+				Some(SInsn::Branch(_, t)) if *t > *f => {
+					fwd_tramp = true;
+					acc.ob("forward conditional jump written as a trampoline")
+				},
+				Some(SInsn::Branch(..)) => {
+					bwd_tramp = true;
+					acc.ob("backward conditional jump written as a trampoline")
+				},
 				_ => {},
 			}
+		}
+		if fwd_tramp && bwd_tramp {
+			acc.ob("method with forward and backward trampolines");
 		}
 		wide_set.sort();
 		case_wide += wide_set.len() as u64;
 		case_folds += folds.len() as u64;
+		acc.max_sites = acc.max_sites.max(wide_set.len() as u64);
+		if intent.cascade {
+			acc.max_cascade_sites = acc.max_cascade_sites.max(wide_set.len() as u64);
+		}
+		if intent.widened > 0 && (m.name == JS::new("m") || m.name == JS::new("m2")) {
+			// information: does the number of long sites equal what the layout model of the scene predicts?
+			acc.ob(if wide_set.len() as u32 == intent.widened { "long sites as predicted by the layout model (information)" } else { "long sites differ from the layout model's prediction (information)" });
+		}
 		acc.max_narrow = acc.max_narrow.max(cs.max_narrow);
 		acc.min_narrow = acc.min_narrow.min(cs.min_narrow);
 		if cs.far_switch_arms > 0 {
@@ -255,8 +385,14 @@ fn judge(ctx: &Ctx, acc: &mut Acc, label: &str, bytes: &[u8], intent: Intent, pa
 		if cs.ldc_w > 0 {
 			acc.ob("method written with ldc_w");
 		}
+		if cs.ldc2_w > 0 && ec.insns.iter().any(|i| matches!(i, SInsn::Ldc(SConst::Dynamic(_)))) {
+			acc.ob("method with dynamic constants written with ldc2_w");
+		}
 		if cs.code_length >= 65_533 {
 			acc.ob(&format!("code_length {} written", cs.code_length));
+		}
+		if renamed.is_some() && !wide_set.is_empty() {
+			acc.ob("renamed tree with a rewritten jump");
 		}
 		acc.states.add(&(vcore::hash64(&ec.insns), &wide_set));
 	}
@@ -269,6 +405,9 @@ fn judge(ctx: &Ctx, acc: &mut Acc, label: &str, bytes: &[u8], intent: Intent, pa
 	}
 	if parsed.pool_count >= 65_533 {
 		acc.ob(&format!("constant_pool_count {} written", parsed.pool_count));
+		if renamed.is_some() && reference.is_some_and(|r| r.pool_count < parsed.pool_count) {
+			acc.ob("renamed tree written with a larger, nearly full constant pool");
+		}
 	}
 	let tag = if case_folds > 0 { format!("{group}+trampoline") } else if case_wide > 0 { format!("{group}+wide") } else { group.to_owned() };
 	acc.st.sample(&tag, || json!({
@@ -280,7 +419,7 @@ fn judge(ctx: &Ctx, acc: &mut Acc, label: &str, bytes: &[u8], intent: Intent, pa
 	}));
 }
 
-fn judge_model(ctx: &Ctx, acc: &mut Acc, label: &str, model: &SClass, enc: &Encoding, intent: Intent) {
+fn judge_model(ctx: &Ctx, acc: &mut Acc, label: &str, model: &SClass, enc: &Encoding, intent: Intent, rename: bool) {
 	match timed(1, || assemble(model, enc)) {
 		Ok(bytes) => {
 			// oracle self-check before the code under test is consulted
@@ -289,20 +428,72 @@ fn judge_model(ctx: &Ctx, acc: &mut Acc, label: &str, model: &SClass, enc: &Enco
 				Ok(p) => vcore::machinery_fail(&format!("{label}: assembler and reference parser disagree: {:?}", cfmodel::sdiff::diff(model, &p.class).0.first())),
 				Err(e) => vcore::machinery_fail(&format!("{label}: the reference parser rejects an assembled class: {e}")),
 			};
-			vcore::watched(|| replay_text(label, &bytes), || judge(ctx, acc, label, &bytes, intent, Some(p)))
+			vcore::watched(|| replay_text(label, &bytes), || judge(ctx, acc, label, &bytes, intent, Some(p), rename))
 		},
 		Err(AsmError::Unencodable(_)) => acc.st.outcome("unencodable-skipped"),
 		Err(AsmError::Internal(e)) => vcore::machinery_fail(&format!("{label}: assembler: {e}")),
 	}
 }
 
-const STRICT: Intent = Intent { widened: 0, cascade: false, overflow: false, strict: true };
+const STRICT: Intent = Intent { widened: 0, cascade: false, overflow: false, strict: true, invalid_code: false, table_overflow: false };
 
-fn par_models(ctx: &'static Ctx, cases: Vec<(String, SClass, Encoding)>) -> Acc {
+fn par_models(ctx: &'static Ctx, cases: Vec<(String, SClass, Encoding)>, rename: bool) -> Acc {
 	cases.into_par_iter().fold(Acc::new, |mut acc, (label, m, e)| {
-		judge_model(ctx, &mut acc, &label, &m, &e, STRICT);
+		judge_model(ctx, &mut acc, &label, &m, &e, STRICT, rename);
 		acc
 	}).reduce(Acc::new, Acc::merge)
+}
+
+static SAVED_STDERR: std::sync::atomic::AtomicI32 = std::sync::atomic::AtomicI32::new(-1);
+
+/// dukebox reports every `// TODO` it passes (one line per Signature attribute) on stderr; the renamed-trees pass
+/// silences stderr unless C02_STDERR is set. VIOLATION lines go to stdout and are not affected.
+fn silence_stderr() {
+	if std::env::var_os("C02_STDERR").is_some() {
+		return;
+	}
+	// SAFETY: plain file-descriptor calls on descriptors this process owns
+	unsafe {
+		let saved = libc::dup(2);
+		let null = libc::open(c"/dev/null".as_ptr(), libc::O_WRONLY);
+		if saved < 0 || null < 0 {
+			return;
+		}
+		libc::dup2(null, 2);
+		libc::close(null);
+		SAVED_STDERR.store(saved, std::sync::atomic::Ordering::SeqCst);
+	}
+}
+
+fn restore_stderr() {
+	let fd = SAVED_STDERR.swap(-1, std::sync::atomic::Ordering::SeqCst);
+	if fd >= 0 {
+		// SAFETY: as above
+		unsafe {
+			libc::dup2(fd, 2);
+			libc::close(fd);
+		}
+	}
+}
+
+/// accumulates the spaces of a run
+struct Sink {
+	total: Acc,
+	spaces: serde_json::Map<String, serde_json::Value>,
+	/// per space: (cases judged, of these written and read back equal)
+	space_equal: BTreeMap<String, (u64, u64)>,
+	timing: bool,
+}
+
+impl Sink {
+	fn run(&mut self, ctx: &Ctx, name: &str, acc: Acc) {
+		if self.timing {
+			eprintln!("[timing] {:8.2}s after {name}", ctx.elapsed_s());
+		}
+		self.space_equal.insert(name.to_owned(), (acc.transitions, acc.st.get("written:equal")));
+		self.spaces.insert(name.to_owned(), json!({"writer_executions": acc.transitions, "outcomes": acc.st.outcomes, "distinct_classes": acc.st.distinct.len(), "states": acc.states.len()}));
+		self.total = std::mem::replace(&mut self.total, Acc::new()).merge(acc);
+	}
 }
 
 fn main() {
@@ -318,31 +509,41 @@ fn main() {
 		let body = vcore::replay_body(&path);
 		let hex: String = body.lines().skip_while(|l| !l.starts_with("class file bytes")).skip(1).collect();
 		let bytes = vcore::unhex(&hex).unwrap_or_else(|| vcore::machinery_fail("replay: bad hex"));
-		let lenient = Intent { strict: false, ..STRICT };
+		let invalid_code = body.lines().next().is_some_and(|l| l.starts_with("label=unrepresentable-code/"));
+		let table_overflow = body.lines().next().is_some_and(|l| l.starts_with("label=split-tables/") && l.contains("entries-over-65535"));
+		let lenient = Intent { strict: false, invalid_code, table_overflow, ..STRICT };
+		// a case of the renamed-trees pass carries ` renamed=<remapper>` at the end of its label
+		let mode = body.lines().next().and_then(|l| l.rsplit_once(" renamed=")).and_then(|(_, m)| renamed::Mode::from_name(m.trim()));
+		let once = |acc: &mut Acc| match mode {
+			Some(m) => {
+				silence_stderr();
+				judge_renamed(ctx, acc, "replay", &bytes, m);
+				restore_stderr();
+			},
+			None => judge(ctx, acc, "replay", &bytes, lenient, None, false),
+		};
 		let mut a = Acc::new();
-		judge(ctx, &mut a, "replay", &bytes, lenient, None);
+		once(&mut a);
 		let mut b = Acc::new();
-		judge(ctx, &mut b, "replay", &bytes, lenient, None);
+		once(&mut b);
 		if a.st.outcomes != b.st.outcomes {
 			vcore::machinery_fail("replay: the two runs of the case differ");
 		}
 		ctx.finish(json!({"evaluations": 2, "distinct_nontrivial": 2, "states": 1, "transitions": 2, "traces_validated_against_impl": 2, "rule": "replay of one class file, twice", "outcomes": a.st.outcomes, "samples": [body.lines().next()]}), &[]);
 	}
 	let quick = ctx.tier == Tier::Quick;
-	let mut total = Acc::new();
-	let mut spaces = serde_json::Map::new();
 	let timing = std::env::var_os("C02_TIMING").is_some();
-	let mut run = |name: &str, acc: Acc| {
-		if timing {
-			eprintln!("[timing] {:8.2}s after {name}", ctx.elapsed_s());
-		}
-		spaces.insert(name.to_owned(), json!({"writer_executions": acc.transitions, "outcomes": acc.st.outcomes, "distinct_classes": acc.st.distinct.len(), "states": acc.states.len()}));
-		total = std::mem::replace(&mut total, Acc::new()).merge(acc);
-	};
+	let mut sink = Sink { total: Acc::new(), spaces: serde_json::Map::new(), space_equal: BTreeMap::new(), timing };
+	macro_rules! run {
+		($name:expr, $acc:expr) => {{
+			let acc = $acc;
+			sink.run(ctx, $name, acc)
+		}};
+	}
 
 	// (a) the shared suite, the shape sweep, the corpus
 	for (name, cases) in cfmodel::suite::listed_groups(quick) {
-		run(name, par_models(ctx, cases));
+		run!(name, par_models(ctx, cases, true));
 	}
 	let max_len = ctx.tier.pick(3, 4);
 	for len in 1..=max_len {
@@ -355,60 +556,123 @@ fn main() {
 				if k == 1 && len >= 3 && idx % 7 != 0 {
 					continue; // the second encoding on a fixed 1/7 slice of the longer spaces (stated in bounds)
 				}
-				judge_model(ctx, &mut acc, &format!("shape/len{len}/{idx}/enc{k}"), &m, e, STRICT);
+				judge_model(ctx, &mut acc, &format!("shape/len{len}/{idx}/enc{k}"), &m, e, STRICT, len <= 2);
 			}
 			acc
 		}).reduce(Acc::new, Acc::merge);
-		run(&format!("shape-sweep-len{len}"), acc);
+		run!(&format!("shape-sweep-len{len}"), acc);
 	}
 	let corpus = cfmodel::corpus::vendored(&vcore::verif_root());
 	let n_corpus = corpus.len();
 	let acc = corpus.par_iter().fold(Acc::new, |mut acc, (name, bytes)| {
 		let label = format!("corpus/{name}");
-		vcore::watched(|| replay_text(&label, bytes), || judge(ctx, &mut acc, &label, bytes, STRICT, None));
+		vcore::watched(|| replay_text(&label, bytes), || judge(ctx, &mut acc, &label, bytes, STRICT, None, true));
 		acc
 	}).reduce(Acc::new, Acc::merge);
-	run("javac-corpus", acc);
+	run!("javac-corpus", acc);
 	let mut n_jdk = 0;
 	if !quick {
 		let jdk = cfmodel::corpus::jdk_java_base(&vcore::verif_root().join("harness").join("target").join("tmp-jdk-c02"));
 		n_jdk = jdk.len();
 		let acc = jdk.par_iter().fold(Acc::new, |mut acc, (name, bytes)| {
 			let label = format!("jdk/{name}");
-			vcore::watched(|| replay_text(&label, bytes), || judge(ctx, &mut acc, &label, bytes, STRICT, None));
+			vcore::watched(|| replay_text(&label, bytes), || judge(ctx, &mut acc, &label, bytes, STRICT, None, false));
 			acc
 		}).reduce(Acc::new, Acc::merge);
-		run("jdk-java.base (optional breadth)", acc);
+		run!("jdk-java.base (optional breadth)", acc);
 	}
 
 	// (b) threshold windows
+	let rename_every: usize = ctx.tier.pick(8, 2);
 	let mut window_specs = 0u64;
 	let mut window_bounds = serde_json::Map::new();
 	for (name, specs) in windows::specs(quick) {
 		window_specs += specs.len() as u64;
 		window_bounds.insert(name.to_owned(), json!(specs.len()));
-		let acc = specs.par_iter().fold(Acc::new, |mut acc, spec| {
+		let acc = specs.par_iter().enumerate().fold(Acc::new, |mut acc, (si, spec)| {
 			match timed(0, || spec.realise()) {
 				Some(case) => {
 					if case.intent.widened > 0 {
 						acc.ob("scene whose settled layout needs a long form");
 					}
-					judge_model(ctx, &mut acc, &format!("{name}/{}", case.label), &case.class, &case.enc, case.intent)
+					// every 8th (thorough: 2nd) scene of each group is also written after renaming (stated in bounds)
+					judge_model(ctx, &mut acc, &format!("{name}/{}", case.label), &case.class, &case.enc, case.intent, si % rename_every == 0)
 				},
 				None => acc.st.outcome("scene-infeasible-skipped"),
 			}
 			acc
 		}).reduce(Acc::new, Acc::merge);
-		run(name, acc);
+		run!(name, acc);
 	}
-	run("operand-thresholds", par_models(ctx, windows::operand_cases(quick)));
-	run("full-constant-pool", par_models(ctx, windows::full_pool_cases(quick)));
-	let patched = windows::patched_invokeinterface();
-	let acc = patched.par_iter().fold(Acc::new, |mut acc, (label, bytes)| {
-		vcore::watched(|| replay_text(label, bytes), || judge(ctx, &mut acc, label, bytes, Intent { strict: false, ..STRICT }, None));
+	run!("operand-thresholds", par_models(ctx, windows::operand_cases(quick), true));
+	let full = windows::full_pool_cases(quick);
+	let n_full = full.len() as u64;
+	// the cases that share Utf8 entries with renamable names are also written after renaming (pool overflow)
+	let acc = full.into_par_iter().fold(Acc::new, |mut acc, (label, m, e)| {
+		let shared = label.ends_with("sharedtrue");
+		judge_model(ctx, &mut acc, &label, &m, &e, STRICT, shared);
 		acc
 	}).reduce(Acc::new, Acc::merge);
-	run("invokeinterface-unrepresentable", acc);
+	run!("full-constant-pool", acc);
+	let patched = windows::patched_invokeinterface();
+	let acc = patched.par_iter().fold(Acc::new, |mut acc, (label, bytes)| {
+		vcore::watched(|| replay_text(label, bytes), || judge(ctx, &mut acc, label, bytes, Intent { strict: false, ..STRICT }, None, false));
+		acc
+	}).reduce(Acc::new, Acc::merge);
+	run!("invokeinterface-unrepresentable", acc);
+
+	// (c) collision spaces
+	let desc_len = spaces::descriptor_max_len(quick);
+	let n_lists = spaces::descriptor_lists(desc_len);
+	let acc = (0..n_lists).into_par_iter().fold(Acc::new, |mut acc, idx| {
+		let params = spaces::descriptor_nth(idx, desc_len);
+		let slots = spaces::descriptor_slots(&params);
+		acc.ob(match slots {
+			0..=2 => "descriptor list needing <= 2 argument slots",
+			3..=5 => "descriptor list needing 3-5 argument slots",
+			_ => "descriptor list needing >= 6 argument slots",
+		});
+		judge_model(ctx, &mut acc, &format!("invokeinterface-descriptors/{}", params.concat()), &spaces::descriptor_class(&params), &Encoding::default(), STRICT, idx % 16 == 0);
+		acc
+	}).reduce(Acc::new, Acc::merge);
+	run!("invokeinterface-descriptors", acc);
+	run!("dynamic-constant-descriptors", par_models(ctx, spaces::condy_cases(), true));
+	run!("bootstrap-table", par_models(ctx, spaces::bootstrap_cases(), true));
+	run!("pool-collisions", par_models(ctx, spaces::collision_cases(), true));
+	run!("end-of-code-tables", par_models(ctx, spaces::tail_cases(), true));
+
+	let patched = spaces::patched_code_cases();
+	let acc = patched.par_iter().fold(Acc::new, |mut acc, (label, bytes)| {
+		vcore::watched(|| replay_text(label, bytes), || judge(ctx, &mut acc, label, bytes, Intent { strict: false, invalid_code: true, ..STRICT }, None, false));
+		acc
+	}).reduce(Acc::new, Acc::merge);
+	run!("unrepresentable-code", acc);
+
+	let split = spaces::split_table_cases();
+	let acc = split.par_iter().fold(Acc::new, |mut acc, (label, bytes, total)| {
+		let intent = Intent { table_overflow: *total > 65_535, ..STRICT };
+		if *total == 65_535 {
+			acc.ob("table of exactly 65535 entries given to the writer");
+		}
+		vcore::watched(|| replay_text(label, bytes), || judge(ctx, &mut acc, label, bytes, intent, None, false));
+		acc
+	}).reduce(Acc::new, Acc::merge);
+	run!("split-tables", acc);
+
+	// (d) the queued cases once more, each tree renamed by dukebox with each remapper before it is written
+	let queue = std::mem::take(&mut sink.total.queue);
+	let n_queue = queue.len();
+	silence_stderr();
+	let acc = queue.par_iter().fold(Acc::new, |mut acc, (label, bytes)| {
+		for mode in renamed::MODES {
+			vcore::watched(|| replay_text(&format!("{label} renamed={}", mode.name()), bytes), || judge_renamed(ctx, &mut acc, label, bytes, mode));
+		}
+		acc
+	}).reduce(Acc::new, Acc::merge);
+	restore_stderr();
+	drop(queue);
+	run!("renamed-trees", acc);
+	let Sink { total, spaces, space_equal, .. } = sink;
 
 	if timing {
 		for (i, n) in PHASES.iter().enumerate() {
@@ -423,9 +687,28 @@ fn main() {
 	ctx.floor("forward conditional jumps written as a trampoline", 1, total.obs("forward conditional jump written as a trampoline"));
 	ctx.floor("backward conditional jumps written as a trampoline", 1, total.obs("backward conditional jump written as a trampoline"));
 	ctx.floor("cascades needing >= 2 long sites", 1, total.obs("cascade: a jump in range in the all-narrow layout was rewritten because another one was (>= 2 long sites)"));
-	if !quick {
-		ctx.floor("cascades with >= 3 long sites", 1, total.obs("cascade with >= 3 long sites"));
+	ctx.floor("cascades with >= 3 long sites", 1, total.obs("cascade with >= 3 long sites"));
+	ctx.floor("longest chain: long sites in one method of a scene where jumps push each other over the limit", ctx.tier.pick(33, 96), total.max_cascade_sites);
+	ctx.floor("most long sites in one method", ctx.tier.pick(260, 1000), total.max_sites);
+	ctx.floor("methods with forward and backward trampolines", 1, total.obs("method with forward and backward trampolines"));
+	ctx.floor("methods with dynamic constants written with ldc2_w", 1, total.obs("method with dynamic constants written with ldc2_w"));
+	// the new spaces ran and produced outputs that were read back equal (a difference is a VIOLATION of its own, not a floor)
+	for (name, least) in [("invokeinterface-descriptors", n_lists), ("dynamic-constant-descriptors", 400), ("bootstrap-table", 80), ("pool-collisions", 18), ("end-of-code-tables", 200), ("chain-of-k", ctx.tier.pick(200, 800)), ("fan-of-k", ctx.tier.pick(60, 300)), ("mixed-chain", ctx.tier.pick(100, 900)), ("unrepresentable-code", 20)] {
+		let (cases, equal) = space_equal.get(name).copied().unwrap_or((0, 0));
+		ctx.floor(&format!("{name}: cases given to the writer"), least, cases);
+		if name != "unrepresentable-code" {
+			ctx.floor(&format!("{name}: cases written and read back equal"), least / 2, equal);
+		}
 	}
+	ctx.floor("renamed trees given to the writer", ctx.tier.pick(10_000, 20_000), total.obs("tree renamed by dukebox and given to the writer"));
+	ctx.floor("renamed trees written and read back equal", 5_000, total.obs("renamed tree written and read back equal"));
+	ctx.floor("full constant pool cases", 11, n_full);
+	ctx.floor("tables of more than 65535 entries refused cleanly", 1, total.obs("clean error where a table has more than 65535 entries"));
+	ctx.floor("split-tables: tables of up to 65535 entries written and read back equal", 2, space_equal.get("split-tables").map(|x| x.1).unwrap_or(0));
+	ctx.floor("renamed trees refused cleanly because the constant pool overflows", 1, total.obs("renamed tree refused cleanly: it needs more constant pool entries than the full pool it was read from"));
+	ctx.floor("renamed trees written with a larger, nearly full constant pool", 1, total.obs("renamed tree written with a larger, nearly full constant pool"));
+	ctx.floor("renamed trees whose ldc/ldc_w choices differ from those of the unrenamed tree", 1, total.obs("renaming moved a constant across the ldc/ldc_w boundary"));
+	ctx.floor("renamed trees with a rewritten jump", 1, total.obs("renamed tree with a rewritten jump"));
 	ctx.floor("clean errors where the code cannot fit", 1, total.obs("clean error where the settled layout exceeds 65535 bytes"));
 	ctx.floor("switches with an arm beyond 16 bits", 1, total.obs("switch with an arm beyond 16 bits"));
 	ctx.floor("switches in a method with a rewritten jump", 1, total.obs("switch in a method with a rewritten jump"));
@@ -468,8 +751,20 @@ fn main() {
 			"shape_second_encoding": "all of lengths 1-2, every 7th sequence of length >= 3",
 			"corpus_classes": n_corpus,
 			"jdk_classes": n_jdk,
-			"window_half_width": ctx.tier.pick(6, 16),
-			"far_jumps_per_method": ctx.tier.pick(2, 3),
+			"window_half_width": ctx.tier.pick(8, 20),
+			"far_jumps_per_method": "2 and 3 in every arrangement; chains up to 33 (thorough 96), fans up to 260 (1000), mixed chains up to 2x13 (2x32)",
+			"invokeinterface_descriptor_alphabet": spaces::PARAM_TYPES.len(),
+			"invokeinterface_descriptor_max_params": desc_len,
+			"invokeinterface_descriptor_lists": n_lists,
+			"invokeinterface_return_types": spaces::RETURN_TYPES.len(),
+			"split_line_number_tables": split.iter().map(|(_, _, n)| *n).collect::<Vec<_>>(),
+			"unrepresentable_code_cases": patched.len(),
+			"full_pool_cases": n_full,
+			"renamed_cases": n_queue,
+			"renamed_remappers": renamed::MODES.iter().map(|m| m.name()).collect::<Vec<_>>(),
+			"renamed_slice": "every case of the shared suite, shape sweep of lengths 1-2, javac corpus, operand thresholds, collision spaces (every 16th descriptor list); every 8th (thorough: 2nd) scene of each window group",
+			"longest_chain_long_sites": total.max_cascade_sites,
+			"most_long_sites_in_one_method": total.max_sites,
 			"jump_opcodes": 18,
 			"window_specifications": window_specs,
 			"window_groups": window_bounds,
@@ -482,6 +777,7 @@ fn main() {
 		"`if<not c> next-next; goto L` in the output where the tree has `if<c> L` is the same fact (the rewriting the property names); goto_w/jsr_w are goto/jsr",
 		"a clean Err is a difference only when every method of the class fits 65535 bytes in the longest encoding of each instruction and the input pool used at most 32767 slots",
 		"the window generators aim at output distances assuming short instruction forms and a first-use constant pool; the floors measure on the writer's real output that the limits were hit exactly",
-		"renamed trees (dukebox::remap) are written back by C07, not here",
+		"renamed trees: the renaming is done by the real dukebox::remap::remap_class with two remappers of the harness; only the writer is judged (against the projection of the renamed tree), whether the renaming is right is C07's business",
+		"a clean Err on a renamed tree is accepted also when the reference assembler cannot encode the renamed description (a name that no longer fits 65535 bytes)",
 	]);
 }
